@@ -406,3 +406,134 @@ Proof.
   - intros (v & Hc & -> & ->).
     pose proof (dec_any_complete (S (length (enc v))) v Hc ltac:(lia) 0 []) as C. rewrite app_nil_r in C. rewrite C. reflexivity.
 Qed.
+
+(** * Exact spans, re-encoding, uniqueness (rest of C08) *)
+
+Section BvalInd.
+  Variable P : bval -> Prop.
+  Hypothesis Hs : forall s, P (BStr s).
+  Hypothesis Hi : forall z, P (BInt z).
+  Hypothesis Hl : forall l, Forall P l -> P (BList l).
+  Hypothesis Hd : forall kvs, Forall (fun kv => P (snd kv)) kvs -> P (BDict kvs).
+  Fixpoint bval_ind' (v : bval) : P v :=
+    match v with
+    | BStr s => Hs s
+    | BInt z => Hi z
+    | BList l => Hl l ((fix go (l : list bval) : Forall P l :=
+                          match l with [] => Forall_nil _ | a :: r => Forall_cons a (bval_ind' a) (go r) end) l)
+    | BDict kvs => Hd kvs ((fix go (l : list (list N * bval)) : Forall (fun kv => P (snd kv)) l :=
+                          match l with [] => Forall_nil _ | a :: r => Forall_cons a (bval_ind' (snd a)) (go r) end) kvs)
+    end.
+End BvalInd.
+
+Lemma erase_annot : forall v p, erase (annot p v) = v.
+Proof.
+  induction v as [s|z|l IH|kvs IH] using bval_ind'; intros p; try reflexivity.
+  - rewrite annot_list_eq. cbn [erase]. f_equal.
+    generalize (p + 1). induction IH as [|a r Ha _ IHr]; intros q; cbn [annot_list map]; [reflexivity|].
+    rewrite Ha, IHr. reflexivity.
+  - rewrite annot_dict_eq. cbn [erase]. f_equal.
+    generalize (p + 1). induction IH as [|[k a] r Ha _ IHr]; intros q; cbn [annot_kvs map fst snd key_bytes]; [reflexivity|].
+    cbn [snd] in Ha. rewrite Ha, IHr. reflexivity.
+Qed.
+
+Lemma slice_mid (pre m post : list N) :
+  slice (pre ++ m ++ post) (len pre) (len pre + len m) = m.
+Proof.
+  unfold slice, len. replace (N.to_nat (N.of_nat (length pre) + N.of_nat (length m) - N.of_nat (length pre))) with (length m) by lia.
+  rewrite Nat2N.id. rewrite skipn_app, skipn_all, Nat.sub_diag. cbn [skipn app].
+  rewrite firstn_app, firstn_all, Nat.sub_diag. cbn [firstn]. apply app_nil_r.
+Qed.
+
+(** A node [n] sits inside document [doc] exactly where its offsets say. *)
+Definition placed (doc : list N) (n : tok) : Prop :=
+  exists pre post, doc = pre ++ enc (erase n) ++ post /\ len pre = tok_start n /\
+                   tok_end n = tok_start n + len (enc (erase n)).
+
+Lemma annot_placed : forall v p pre post, len pre = p ->
+  forall n, In n (subtoks (annot p v)) -> placed (pre ++ enc v ++ post) n.
+Proof.
+  induction v as [s|z|l IH|kvs IH] using bval_ind'; intros p pre post Hp n Hin.
+  - cbn in Hin. destruct Hin as [<-|[]]. exists pre, post. cbn [erase tok_start tok_end enc]. auto.
+  - cbn [annot subtoks In] in Hin. destruct Hin as [<-|[]]. exists pre, post. cbn [erase tok_start tok_end]. auto.
+  - rewrite annot_list_eq in Hin. cbn [subtoks In] in Hin. destruct Hin as [<-|Hin].
+    + exists pre, post. cbn [tok_start tok_end]. rewrite <- annot_list_eq, erase_annot. auto.
+    + cbn [enc].
+      assert (G : forall l q pre0 post0, Forall (fun v => forall p pre post, len pre = p ->
+                    forall n, In n (subtoks (annot p v)) -> placed (pre ++ enc v ++ post) n) l ->
+                  len pre0 = q -> In n (flat_map subtoks (annot_list q l)) ->
+                  placed (pre0 ++ flat_map enc l ++ post0) n).
+      { clear. induction l as [|a r IHr]; intros q pre0 post0 HF Hq Hin; cbn [annot_list flat_map] in *; [contradiction|].
+        inversion HF as [|? ? Ha Hr]; subst. apply in_app_or in Hin. destruct Hin as [Hin|Hin].
+        - rewrite <- app_assoc. apply (Ha (len pre0) pre0 (flat_map enc r ++ post0) eq_refl n Hin).
+        - specialize (IHr (len pre0 + len (enc a)) (pre0 ++ enc a) post0 Hr).
+          rewrite <- !app_assoc in *. apply IHr; [apply len_app|exact Hin]. }
+      specialize (G l (p + 1) (pre ++ [108]) ([101] ++ post) IH).
+      rewrite <- !app_assoc in G. cbn [app] in *. rewrite <- !app_assoc. cbn [app]. apply G; [|exact Hin].
+      rewrite len_app. unfold len at 2. cbn. lia.
+  - rewrite annot_dict_eq in Hin. cbn [subtoks In] in Hin. destruct Hin as [<-|Hin].
+    + exists pre, post. cbn [tok_start tok_end]. rewrite <- annot_dict_eq, erase_annot. auto.
+    + cbn [enc].
+      assert (G : forall l q pre0 post0, Forall (fun kv => forall p pre post, len pre = p ->
+                    forall n, In n (subtoks (annot p (snd kv))) -> placed (pre ++ enc (snd kv) ++ post) n) l ->
+                  len pre0 = q -> In n (flat_map (fun kv => fst kv :: subtoks (snd kv)) (annot_kvs q l)) ->
+                  placed (pre0 ++ flat_map (fun kv => enc_str (fst kv) ++ enc (snd kv)) l ++ post0) n).
+      { clear. induction l as [|[k a] r IHr]; intros q pre0 post0 HF Hq Hin; cbn [annot_kvs flat_map fst snd] in *; [contradiction|].
+        inversion HF as [|? ? Ha Hr]; subst. cbn [snd] in Ha. cbn [In] in Hin. destruct Hin as [<-|Hin].
+        - exists pre0, (enc a ++ flat_map (fun kv => enc_str (fst kv) ++ enc (snd kv)) r ++ post0).
+          cbn [erase enc tok_start tok_end]. rewrite <- !app_assoc. auto.
+        - apply in_app_or in Hin. destruct Hin as [Hin|Hin].
+          + specialize (Ha (len pre0 + len (enc_str k)) (pre0 ++ enc_str k)
+                          (flat_map (fun kv => enc_str (fst kv) ++ enc (snd kv)) r ++ post0) (len_app _ _) n Hin).
+            rewrite <- !app_assoc in *. exact Ha.
+          + specialize (IHr (len pre0 + len (enc_str k) + len (enc a)) (pre0 ++ enc_str k ++ enc a) post0 Hr).
+            rewrite <- !app_assoc in *. apply IHr; [rewrite !len_app; lia|exact Hin]. }
+      specialize (G kvs (p + 1) (pre ++ [100]) ([101] ++ post) IH).
+      rewrite <- !app_assoc in G. cbn [app] in *. rewrite <- !app_assoc. cbn [app]. apply G; [|exact Hin].
+      rewrite len_app. unfold len at 2. cbn. lia.
+Qed.
+
+(** Every node's recorded start and continuation offsets delimit exactly the bytes of that node. *)
+Theorem spans_exact x t n : decode x = Ok t -> In n (subtoks t) ->
+  slice x (tok_start n) (tok_end n) = enc (erase n).
+Proof.
+  intros Hd Hin. apply decode_spec in Hd. destruct Hd as (v & Hc & -> & ->).
+  destruct (annot_placed v 0 [] [] eq_refl n Hin) as (pre & post & Hdoc & Hs & He).
+  cbn [app] in Hdoc. rewrite app_nil_r in Hdoc. rewrite Hdoc, He, <- Hs. apply slice_mid.
+Qed.
+
+(** Re-encoding the returned tree reproduces the input byte for byte. *)
+Theorem reencode x t : decode x = Ok t -> enc (erase t) = x.
+Proof.
+  intros Hd. apply decode_spec in Hd. destruct Hd as (v & Hc & -> & ->). now rewrite erase_annot.
+Qed.
+
+(** The canonical value denoted by an accepted input is unique. *)
+Theorem canonical_enc_inj v w : canonical v -> canonical w -> enc v = enc w -> v = w.
+Proof.
+  intros Hv Hw He.
+  assert (H1 : decode (enc v) = Ok (annot 0 v)) by (apply decode_spec; eauto).
+  assert (H2 : decode (enc v) = Ok (annot 0 w)) by (apply decode_spec; exists w; auto).
+  rewrite H1 in H2. inversion H2 as [H3].
+  rewrite <- (erase_annot v 0), <- (erase_annot w 0). now rewrite H3.
+Qed.
+
+(** Every node of an accepted tree denotes a canonical value. *)
+Lemma canonical_sub : forall v p n, canonical v -> In n (subtoks (annot p v)) -> canonical (erase n).
+Proof.
+  induction v as [s|z|l IH|kvs IH] using bval_ind'; intros p n Hc Hin.
+  - cbn in Hin. destruct Hin as [<-|[]]. exact Hc.
+  - cbn [annot subtoks In] in Hin. destruct Hin as [<-|[]]. exact Hc.
+  - rewrite annot_list_eq in Hin. cbn [subtoks In] in Hin. destruct Hin as [<-|Hin].
+    + rewrite <- annot_list_eq, erase_annot. exact Hc.
+    + rewrite canonical_list_eq in Hc. revert Hc Hin. generalize (p + 1).
+      induction IH as [|a r Ha _ IHr]; intros q Hc Hin; cbn [annot_list flat_map all_canonical] in *; [contradiction|].
+      destruct Hc as [Hca Hcr]. apply in_app_or in Hin. destruct Hin as [Hin|Hin]; eauto.
+  - rewrite annot_dict_eq in Hin. cbn [subtoks In] in Hin. destruct Hin as [<-|Hin].
+    + rewrite <- annot_dict_eq, erase_annot. exact Hc.
+    + rewrite canonical_dict_eq in Hc. destruct Hc as [Hks Hc]. revert Hks Hc Hin. generalize (p + 1). generalize (@None (list N)).
+      induction IH as [|[k a] r Ha _ IHr]; intros prev q Hks Hc Hin; cbn [annot_kvs flat_map all_canonical_kv keys_sorted fst snd] in *; [contradiction|].
+      destruct Hc as [Hca Hcr]. destruct Hks as (_ & Hlk & Hks). cbn [In] in Hin. destruct Hin as [<-|Hin].
+      * cbn [erase canonical]. exact Hlk.
+      * apply in_app_or in Hin. destruct Hin as [Hin|Hin]; eauto.
+Qed.
